@@ -279,6 +279,13 @@ def evaluate(ctx, cases):
         if v:
             bad.append((c, v))
     for c in cases:
+        if c['kind'] != 'real':
+            continue
+        v = run_real(ctx, c)
+        ctx.count(json.dumps(c, sort_keys=True), True, sample={'real': c['fmt']})
+        if v:
+            bad.append((c, v))
+    for c in cases:
         if c['kind'] != 'structure':
             continue
         try:
@@ -296,6 +303,101 @@ def evaluate(ctx, cases):
         if v:
             bad.append((c, v))
     return bad
+
+
+# ---------------------------------------------------------------- real readers: v1 files, concatenated v4 data sets
+
+def gen_real_case(rng):
+    """a data set opened through a real reader: a v1 file with more than ten compound scans, or 2-4 v4 data sets
+    opened together whose junctions may repeat the state (a capture restarted mid-track)"""
+    if rng.random() < 0.35:
+        return dict(kind='real', fmt='v1', seed=rng.randrange(2 ** 31), n=rng.randint(11, 14))
+    nparts = rng.randint(2, 4)
+    parts = []
+    last_state = None
+    for p in range(nparts):
+        T = rng.randint(2, 6)
+        first = last_state if (last_state and rng.random() < 0.6) else rng.choice(['slew', 'track'])
+        act = [[-1.0, first]]
+        for _ in range(rng.randint(0, 2)):
+            act.append([rng.randint(1, 2 * T - 1) / 2.0, rng.choice(['slew', 'track', 'scan'])])
+        act = sorted({a[0]: a for a in act}.values())
+        last_state = act[-1][1]
+        parts.append(dict(T=T, activity=act, targets=[[-1.0, rng.randrange(3)]], extra=False,
+                          seed=rng.randrange(2 ** 31)))
+    order = list(range(nparts))
+    rng.shuffle(order)
+    return dict(kind='real', fmt='v4concat', F=2, n_ants=1, parts=parts, order=order, ops=[], bad_period=False,
+                seed=rng.randrange(2 ** 31), which=rng.choice(['scans', 'compscans']))
+
+
+def run_real(ctx, c):
+    """the clauses of the property checked directly on the opened data set -> violation text or None"""
+    import random
+    import shutil
+    import tempfile
+    from harness import h5synth
+    from harness.props import c19
+    tmp = tempfile.mkdtemp(prefix='c03_')
+    try:
+        if c['fmt'] == 'v1':
+            tg = ('Alpha, radec, 19:39:25.03, -63:42:45.6', 'Beta, radec, 04:08:20.38, -65:45:09.1')
+            scans = []
+            for k in range(c['n']):
+                scans.append(('slew', tg[k % 2], 1, 'track'))
+                scans.append(('scan', tg[k % 2], 1 + k % 2, 'track'))
+            syn = h5synth.make_v1(os.path.join(tmp, 'v1.h5'), random.Random(c['seed']), scans=scans, F=2, n_ants=1)
+            d = syn.dataset
+            which = ['scans', 'compscans']
+        else:
+            with dask.config.set(scheduler='synchronous'):
+                parts = c19.build_parts(c, tmp)
+                d = c19.open_concat(c, parts)
+            which = [c['which']]
+        ts_all = np.asarray(d.timestamps[:])
+        if np.any(np.diff(ts_all) <= 0):
+            return 'the dumps of the data set are not in time order'
+        for name in ('Observation/scan_index', 'Observation/compscan_index'):
+            v = [int(x) for x in d.sensor[name]]
+            if v[0] != 0 or any(b - a not in (0, 1) for a, b in zip(v[:-1], v[1:])):
+                return f'{name} is not numbered consecutively from zero in time order: {v}'
+        for w in which:
+            before = [int(x) for x in d.dumps]
+            seen, last_t, last_idx = [], -np.inf, -1
+            it = d.scans() if w == 'scans' else d.compscans()
+            for idx, name, target in it:
+                cur = [int(x) for x in d.dumps]
+                if not cur:
+                    return f'{w}(): item {idx} exposes no dumps'
+                t = np.asarray(d.timestamps[:])
+                if t[0] <= last_t:
+                    return f'{w}(): item {idx} starts at {t[0]:.1f}, not after the end ({last_t:.1f}) of the item visited before it'
+                if idx <= last_idx:
+                    return f'{w}(): items are not visited in increasing index order ({last_idx} then {idx})'
+                last_t, last_idx = t[-1], idx
+                if set(cur) & set(seen):
+                    return f'{w}(): item {idx} exposes dumps {sorted(set(cur) & set(seen))} that an earlier item exposed'
+                seen += cur
+                sensor = 'Observation/scan_state' if w == 'scans' else 'Observation/label'
+                vals = {str(x) for x in d.sensor[sensor]}
+                if vals != {str(name)}:
+                    return f'{w}(): item {idx} yields {name!r} but its dumps have {sorted(vals)}'
+                tg_names = {x.name for x in d.sensor['Observation/target']}
+                if w == 'scans' and tg_names != {target.name}:
+                    return f'{w}(): item {idx} yields target {target.name!r} but its dumps are on {sorted(tg_names)}'
+            if sorted(seen) != before:
+                return f'{w}(): the items expose dumps {sorted(seen)[:12]}…, the selection before iteration was {before[:12]}…'
+            if [int(x) for x in d.dumps] != before:
+                return f'{w}(): the time selection is not restored after the iteration'
+        ctx.tag('real-' + c['fmt'])
+        return None
+    except Exception as e:   # noqa: BLE001
+        import traceback
+        where = traceback.extract_tb(e.__traceback__)[-1]
+        return (f"iterating a {c['fmt']} data set raised {type(e).__name__}: {str(e)[:100]} "
+                f'(at {os.path.basename(where.filename)}:{where.lineno})')
+    finally:
+        shutil.rmtree(tmp, ignore_errors=True)
 
 
 def still_fails(ctx, case):
@@ -332,6 +434,7 @@ def run(ctx):
     build = common.build_and_audit('C03', ctx.tier)
     cases = corpus() + [gen_case(ctx.rng) for _ in range(ctx.q(300, 10000))]
     cases += [gen_structure_case(ctx.rng) for _ in range(ctx.q(80, 3000))]
+    cases += [gen_real_case(ctx.rng) for _ in range(ctx.q(12, 200))]
     bad = evaluate(ctx, cases)
     for c, v in bad:
         ctx.violation(c, v)
